@@ -6,6 +6,7 @@ namespace Drv
 
 def sdToken (n : Nat) (t : String) : Option Actor :=
   if t == "A" then some .acc
+  else if t == "F" then some .accF
   else if t == "S" then some .caller
   else match t.toList with
     | 'W' :: ds => (String.ofList ds).toNat?.bind fun j => if j < n then some (.w j) else none
